@@ -158,6 +158,20 @@ impl Trace {
     }
 }
 
+/// A call that may take the whole process down (abort on allocation failure, stack overflow, kill by the OOM killer)
+/// is announced first: `<out>/pending.json` names it until it has returned.  If the generator dies, bin/check turns the
+/// announcement into a `crashed` event, which Trace.tla rejects -- a crash of the code under test is data, not a tool error.
+static OUT_DIR: std::sync::OnceLock<String> = std::sync::OnceLock::new();
+pub fn set_out_dir(d: &str) { let _ = OUT_DIR.set(d.to_string()); }
+pub fn about_to(call: &str, args: Value) {
+    if let Some(d) = OUT_DIR.get() {
+        let _ = std::fs::write(format!("{}/pending.json", d), serde_json::to_string(&json!({"op": "crashed", "call": call, "args": args})).unwrap());
+    }
+}
+pub fn done() {
+    if let Some(d) = OUT_DIR.get() { let _ = std::fs::remove_file(format!("{}/pending.json", d)); }
+}
+
 /// Run a closure, turning a panic in the code under test into data.
 pub fn catch<T, F: FnOnce() -> T + std::panic::UnwindSafe>(f: F) -> Result<T, String> {
     match std::panic::catch_unwind(f) {
